@@ -27,12 +27,12 @@ CHECKS = {
  "C04": dict(
   engine="c04_wfaults", category="fault_enumeration", design_ref="DESIGN.md §5.2",
   technique="deterministic simulation with fault injection: per sampled solver configuration, exhaustive enumeration of inner linear-solve failure points (iteration index x site) with reference-model oracles on every returned result",
-  text="For every sampled configuration (method x formulation x back-end x L1/mobility mode x Anderson x weights x grid x masses x tolerances) all fault points of the stated quantifier are visited: one run per inner-solve index k=1..n-1 and site (linear_solve entry, back-end solve, set-up), exception types rotating. Each returned result is checked for mass balance against an independent divergence model (tolerance from the measured linear residual), distance = cost of the returned flux, auxiliary outputs, status (converged only if criteria met and no inner failure), last-valid-iterate equality with the truncated fault-free run, and a bound on the number of solves. Complete over fault points within a configuration; configurations are sampled.",
+  text="For every sampled configuration (method x formulation x back-end x L1/mobility mode x Anderson x weights x grid x masses x tolerances) all fault points of the stated quantifier are visited: one run per inner-solve index k=1..n-1 and site (linear_solve entry, back-end solve, set-up), exception types rotating. Each returned result is checked for mass balance against an independent divergence model (tolerance from the measured linear residual), distance = cost of the returned flux, auxiliary outputs, status (converged only if criteria met and no inner failure), last-valid-iterate equality with the truncated fault-free run, and a bound on the number of solves; a fault-free call that raises (C04.X), a non-finite returned iterate (C04.N) and a handled failure followed by an escaping exception (C04.R) are violations. Complete over fault points within a configuration (three sampled points in the long-run profile); configurations are sampled. Four recorded known findings (K3-K5, known_findings.json) print KNOWN-FINDING lines.",
   note="Trusted: the library's quadrature table for the RT0 mode (exactness is C15's subject), numpy/scipy/pyamg; seam names linear_solve, setup_*_solver, linear_solver, _solve and module attributes time/tracemalloc of darsia.measure.wasserstein; a 'failure' is an Exception (BaseExceptions escape the handler by design and are only counted)."),
  "C16": dict(
   engine="c16_hidden_state", category="exploration", design_ref="DESIGN.md §5.3",
-  technique="deterministic simulation: seeded call histories (interleaved clients, env perturbations, interrupt faults) executed in a forked pristine process and compared call-by-call with the same call issued first in another pristine fork",
-  text="Seeded search over histories of <= 4 result-bearing calls per client on explicit solver objects and the library's shared default solver instances; each result is compared (1e-12 relative; AMG-backed distances at 100x the linear tolerance) with the same call issued first in a pristine forked process whose object was built from the constructor arguments and given the parameters set for it, under a second interleaving of the same client programs, and after interrupted calls. Sampling, not proof.",
+  technique="deterministic simulation: seeded call histories (interleaved clients, env perturbations, interrupt and allocation faults) executed in a forked pristine process and compared call-by-call with the same call issued first in another pristine fork",
+  text="Seeded search over histories of <= 4 result-bearing calls per client on explicit solver objects and the library's shared default solver instances; each result is compared (1e-12 relative; iterative back-ends 1e-11 under a harness-owned RNG) with the same call issued first in a pristine forked process whose object was built from the constructor arguments and given the parameters set for it, under a second interleaving of the same client programs, and after interrupted calls. Sampling, not proof.",
   note="Trusted: os.fork of a process that only imported darsia as 'fresh process' (a sample is re-run in a cold interpreter with another PYTHONHASHSEED by the determinism check); the harness model of which parameters H1 / split-Bregman set on an explicit solver; memoised numba.njit is semantically transparent; seam names Jacobi._neighbor_accumulation, split_bregman_tvd.njit, wasserstein.time."),
  "C17": dict(
   engine="c17_no_mutation", category="exploration", design_ref="DESIGN.md §5.4",
@@ -43,7 +43,7 @@ CHECKS = {
   engine="c18_storage", category="exploration", design_ref="DESIGN.md §5.5",
   technique="deterministic simulation with fault injection: seeded save/read programs on a scratch directory behind a storage seam (injected OSErrors at the n-th open/write/flush/close/read/mkdir), process restarts between segments (forked pristine processes), in-memory path model with acknowledged / indeterminate states",
   text="Seeded search over programs of saves, reads, byte-string decodes, optical writes and correction save/reload on one directory, with injected I/O errors inside operations and process restarts between them; every save that returned normally must read back (in the same or a restarted process) to identical pixel data, dtype and metadata, decoded byte strings must give the original array in RGB order with the matching image kind, lossless optical write/read must return the same colours with ImageMagick absent or present, and a reloaded correction must produce the output recorded before saving. Sampling, not proof.",
-  note="Trusted: the storage seam sees every Python-level file access of np.savez/np.load (zipfile) but not OpenCV's C-level imwrite/imread, which run fault-free; a save that raised promises nothing; class of the reloaded image is not compared; OpenCV's RNG is seeded before every correction application."),
+  note="Trusted: the storage seam sees every Python-level file access of np.savez/np.load (zipfile) but not OpenCV's C-level imwrite/imread, which run fault-free; a save that raised promises nothing; class and original_dtype of the reloaded image are compared; the OpenCV / numpy RNG states are decided by the harness and differ between the stored and the reloaded correction; one recorded known finding (K2: 16-bit planar RGB TIFF byte strings)."),
  "C03": dict(
   engine="c03_geometry", category="exploration", design_ref="DESIGN.md §5.1",
   technique="deterministic simulation: seeded interleaving of client programs on shared caching Geometry objects, injected resize failures and environment perturbations, per-step fresh-clone and reference-model oracles",
